@@ -240,6 +240,7 @@ func checkC17(c *Case, r *Rec) error {
 					}
 				}
 				isolated := Build(histSpec(lp.base, lp.hist), nil)
+				var m *Model
 				nfOps := normalForm(lp.hist, rnd)
 				nf := Build(histSpec(lp.base, nfOps), nil)
 				// (c) drop one rule op
@@ -282,6 +283,18 @@ func checkC17(c *Case, r *Rec) error {
 					in := string(inb)
 					got := lp.p.Sanitize(in)
 					lp.memo = append(lp.memo, memoEntry{in, got, len(lp.hist)})
+					// (d) whatever else happened in this process, the policy must not keep more than the model
+					// of ITS OWN history allows (elements, attributes, bare elements)
+					if m == nil {
+						m = BuildModel(histSpec(lp.base, lp.hist))
+					}
+					inToks, outToks := tokenize(in), tokenize(got)
+					if err := checkElements(m, in, got, inToks, outToks); err != nil {
+						return violation(got, "C17(d): policy #%d with history %s: %v (input %s)", pi, histSpec(lp.base, lp.hist).String(), err, q(trunc(in, 150)))
+					}
+					if _, err := checkAttributes(m, newLog(), in, got, inToks, outToks, nil); err != nil {
+						return violation(got, "C17(d): policy #%d with history %s: %v (input %s)", pi, histSpec(lp.base, lp.hist).String(), err, q(trunc(in, 150)))
+					}
 					if iso := isolated.Sanitize(in); iso != got {
 						return violation(got, "C17(a): policy #%d built interleaved with others returns %s, the same builder calls in isolation return %s (history %s, input %s)",
 							pi, q(trunc(got, 150)), q(trunc(iso, 150)), histSpec(lp.base, lp.hist).String(), q(trunc(in, 150)))
